@@ -326,7 +326,7 @@ Definition factor_body (e : env) (ev : nat -> list tok -> vres) (tl : list tok -
           let i := Z.max 1 (fst p2) in
           let fin (j : Z) (r3 : list tok) :=
             bind (require Krp r3) (fun r4 =>
-              if (str_len (fst p1) <? i - 1)%Z then Unsup "MID$ start beyond the end of the string (std::out_of_range in C++)"
+              if (str_len (fst p1) <? i - 1)%Z then Ok (VStr "", r4)      (* start beyond the end: the empty string *)
               else Ok (VStr (substring (Z.to_nat (i - 1)) (if (j <? 0)%Z then String.length (fst p1) else Z.to_nat j) (fst p1)), r4)) in
           match snd p2 with
           | TK Kcomma :: r3 => bind (intexpr r3) (fun p3 => fin (fst p3) (snd p3))
